@@ -3,6 +3,6 @@ namespace Kestrel
 open Generated
 
 /-- commands.rs::gen_key — fresh key, fresh salt, lock; -o FILE opened with create+append (D1 repair)  (properties: C14 C07 C16) -/
-theorem gen_flow_commands_rs_gen_key : flow_commands_rs_gen_key = ["err:anyhow", "ask_pass", "random_key", "random", "lock", "open_options", "open_append", "open_output", "write_all", "flush"] := rfl
+theorem gen_flow_commands_rs_gen_key : flow_commands_rs_gen_key = ["ask_user", "err:anyhow", "ask_pass", "random_key", "random", "lock", "open_options", "open_append", "open_output", "write_all", "flush"] := rfl
 
 end Kestrel
